@@ -29,6 +29,16 @@
 #include "dns_unit_env.h"
 #include <netinet/in.h>
 
+/* witnesses of the general obligations; the KF_ONLY_* twins constrain the input to a finding's predicate, where most
+ * of them are unreachable by construction: those builds have one witness, "finding inputs reached" */
+#if defined(KF_ONLY_INT_WRAP) || defined(KF_ONLY_TIMEVAL_RANGE) || defined(KF_ONLY_NDOTS_RESET)
+#define C39_WITNESS(msg) ((void)0)
+#define C39_KF_WITNESS() VP_WITNESS("C39: inputs of the finding reached")
+#else
+#define C39_WITNESS(msg) VP_WITNESS(msg)
+#define C39_KF_WITNESS() ((void)0)
+#endif
+
 /* ---- strtod contract ---- */
 #define C39_D_UNREPRESENTABLE(d) (!((d) < 0.0) && !((d) >= 0.0 && (d) <= 2147483647.0))
 static double c39_d; static int c39_d_whole; static int c39_strtod_calls;
@@ -52,6 +62,36 @@ static double c39_strtod(const char *s, char **endp)
 	return cv.d;
 }
 #define strtod(s, e) c39_strtod((s), (e))
+
+/* ---- strtol contract: any long, end pointer anywhere in the text; nothing converted -> 0 ---- */
+#define C39_L_BEYOND_INT(v) ((v) > 2147483647L || (v) < -2147483647L - 1L)
+#ifndef C39_MAXINFLIGHT
+#define C39_MAXINFLIGHT 15
+#endif
+static int c39_cap_l;
+static long c39_l; static int c39_l_whole, c39_strtol_calls; static const char *c39_strtol_arg;
+static long c39_strtol(const char *s, char **endp, int base)
+{
+	size_t n = 0, k; long lv;
+	while (s[n]) n++;
+	VP_ASSERT(base == 10, "C39: integer option values are decimal");
+	c39_strtol_calls++; c39_strtol_arg = s;
+	if (vp_bool()) k = n; else { k = (size_t)vp_input(); __CPROVER_assume(k < n); }
+	lv = (long)vp_u64();
+	if (k == 0) lv = 0;
+	if (c39_cap_l) __CPROVER_assume(lv <= C39_MAXINFLIGHT);
+	if (endp) *endp = (char *)s + k;
+	c39_l = lv; c39_l_whole = (k == n);
+	/* finding KF-C39-int-wrap: a fully converted value outside the range of int */
+#if defined(KF_EXCLUDE_INT_WRAP)
+	__CPROVER_assume(!(c39_l_whole && C39_L_BEYOND_INT(lv)));
+#elif defined(KF_ONLY_INT_WRAP)
+	__CPROVER_assume(c39_l_whole && C39_L_BEYOND_INT(lv));
+#endif
+	return lv;
+}
+#undef strtol
+#define strtol(s, e, b) c39_strtol((s), (e), (b))
 
 /* ---- evutil_parse_sockaddr_port contract ---- */
 #define C39_PSP_MAX 4
@@ -166,43 +206,29 @@ static char *c39_string(size_t n, size_t *lenp)
 }
 
 /* ------------------------------------------------------------------ (1) */
-/* predicate of finding KF-C39-int-wrap: a well-formed value whose decimal magnitude does not fit an int
- * (taken from the reference scan itself: a second scan of the text costs the solver minutes) */
-static void c39_kf_int(int beyond_int)
-{
-#if defined(KF_EXCLUDE_INT_WRAP)
-	__CPROVER_assume(!beyond_int);
-#elif defined(KF_ONLY_INT_WRAP)
-	__CPROVER_assume(beyond_int);
-#else
-	(void)beyond_int;
-#endif
-}
 void harness_int(void)
 {
 	size_t len;
 	char *s = c39_string(C39_N, &len);
-	int lo = vp_int(), hi = vp_int(), r, rc, want = 0, ok, beyond = 0;
+	int lo = vp_int(), hi = vp_int(), r, want = 0, ok, clip = vp_bool();
 	__CPROVER_assume(lo <= hi && lo != -1 && hi != -1);
-	ok = dcr_int_ex(s, &want, &beyond);
-	c39_kf_int(ok && beyond);
-	/* one parse per run: a second scan of the same text by the code costs the solver minutes */
-#ifdef C39_CLIP
-	rc = strtoint_clipped(s, lo, hi); r = ok ? want : -1;
-#else
-	r = strtoint(s); rc = ok ? (want < lo ? lo : want > hi ? hi : want) : -1;
+	r = clip ? strtoint_clipped(s, lo, hi) : strtoint(s);
+#if defined(KF_ONLY_INT_WRAP)
+	__CPROVER_assume(c39_strtol_calls > 0);
 #endif
+	VP_ASSERT(c39_strtol_calls == 1 && c39_strtol_arg == s, "C39: the value text is converted once, from its start");
+	ok = dcr_int(c39_l, c39_l_whole, &want);
+	if (clip && ok) want = want < lo ? lo : want > hi ? hi : want;
 	if (!ok) {
-		VP_ASSERT(r == -1, "C39: strtoint accepted a malformed integer");
-		VP_ASSERT(rc == -1, "C39: strtoint_clipped accepted a malformed integer");
-		VP_WITNESS("C39 int: malformed value rejected");
+		VP_ASSERT(r == -1, "C39: strtoint/strtoint_clipped accepted a malformed integer");
+		C39_WITNESS("C39 int: malformed value rejected");
 	} else {
-		VP_ASSERT(r == want, "C39: strtoint value differs from the reference (decimal value saturated to int)");
-		VP_ASSERT(rc == (want < lo ? lo : want > hi ? hi : want), "C39: strtoint_clipped value differs from the reference (clipped to [min,max])");
-		if (len >= 10) VP_WITNESS("C39 int: 10+ character value parsed");
-		if (want < 0) VP_WITNESS("C39 int: negative value parsed");
-		if (len == 0) VP_WITNESS("C39 int: empty value reads as 0");
+		VP_ASSERT(r == want, "C39: strtoint/strtoint_clipped value differs from the reference (value saturated to int, then clipped to [min,max])");
+		if (clip && r == hi && hi < 100) C39_WITNESS("C39 int: clipped to max");
+		if (!clip && want < 0) C39_WITNESS("C39 int: negative value parsed");
+		if (len == 0) C39_WITNESS("C39 int: empty value reads as 0");
 	}
+	C39_KF_WITNESS();
 	C39_FREE(s, C39_N, len);
 }
 
@@ -225,14 +251,15 @@ void harness_timeval(void)
 	ok = c39_d_whole && dcr_timeval(c39_d, &ws, &wu);
 	if (!ok) {
 		VP_ASSERT(r == -1, "C39: evdns_strtotimeval accepted a value that is not a representable time of at least 1 ms");
-		VP_WITNESS("C39 timeval: rejected");
+		C39_WITNESS("C39 timeval: rejected");
 	} else {
 		VP_ASSERT(r == 0, "C39: evdns_strtotimeval rejected a valid time");
 		VP_ASSERT(tv.tv_sec == ws && tv.tv_usec == wu, "C39: evdns_strtotimeval result differs from trunc(d), trunc(frac*1e6)");
 		VP_ASSERT(tv.tv_sec >= 0 && tv.tv_usec >= 0 && tv.tv_usec < 1000000, "C39: evdns_strtotimeval produced a denormal timeval");
-		if (tv.tv_sec > 0 && tv.tv_usec > 0) VP_WITNESS("C39 timeval: seconds and microseconds");
+		if (tv.tv_sec > 0 && tv.tv_usec > 0) C39_WITNESS("C39 timeval: seconds and microseconds");
 	}
-	free(s - (4 - len));
+	C39_KF_WITNESS();
+	C39_FREE(s, 4, len);
 }
 
 /* ------------------------------------------------------------------ (3) */
@@ -299,15 +326,8 @@ void harness_option(void)
 	k = dcr_opt_find(option);
 	val = c39_string(C39_VN, &vlen);
 	if ((k == DCR_NOPTS || dcr_opts[k].kind == DCR_FLAG) && vp_bool()) val_null = 1;   /* dns.h: NULL only for valueless options */
-	if (k != DCR_NOPTS && (dcr_opts[k].kind == DCR_INT || dcr_opts[k].kind == DCR_INT_MAX255 || dcr_opts[k].kind == DCR_CLIP)) {
-		int v0 = 0, beyond = 0, ok0 = dcr_int_ex(val, &v0, &beyond);
-		c39_kf_int(ok0 && beyond);
-	}
 
-	if (k == DCR_MAXINFLIGHT) {   /* keep the request table small (its size is not the subject; clipping at 65000: harness_int) */
-		int v = 0;
-		if (dcr_int(val, &v)) __CPROVER_assume(v <= C39_MAXINFLIGHT);
-	}
+	c39_cap_l = (k == DCR_MAXINFLIGHT);   /* keep the request table small (its size is not the subject; clipping at 65000: harness_int) */
 	c39_snapshot(base, &before); want = before; bound_before = base->global_outgoing_addrlen;
 	EVDNS_LOCK(base);
 	r = evdns_base_set_option_impl(base, option, val_null ? NULL : val, flags);
@@ -315,7 +335,7 @@ void harness_option(void)
 	c39_kf_time();
 	c39_snapshot(base, &got);
 
-	wr = dcr_set_option(&want, option, val_null ? NULL : val, flags, c39_d, c39_strtod_calls ? c39_d_whole : 0, c39_psp_calls ? c39_psp_ok[0] : 0);
+	wr = dcr_set_option(&want, option, val_null ? NULL : val, flags, c39_l, c39_strtol_calls ? c39_l_whole : 0, c39_d, c39_strtod_calls ? c39_d_whole : 0, c39_psp_calls ? c39_psp_ok[0] : 0);
 	VP_ASSERT(r == wr, "C39: evdns_base_set_option result differs from the reference (0 ok/ignored, -1 malformed value)");
 	VP_ASSERT(c39_conf_equal(&got, &want), "C39: configuration after evdns_base_set_option differs from the reference");
 	if (wr == -1) VP_ASSERT(c39_conf_equal(&got, &before), "C39: a rejected option changed the configuration");
@@ -325,26 +345,27 @@ void harness_option(void)
 		if (c39_psp_ok[0]) {
 			VP_ASSERT(base->global_outgoing_addrlen == (ev_socklen_t)c39_psp_len[0], "C39: bind-to address length not recorded");
 			VP_ASSERT(c39_sa_equal((struct sockaddr *)&base->global_outgoing_address, (struct sockaddr *)&c39_psp_out[0], 1), "C39: bind-to address not recorded");
-			VP_WITNESS("C39 option: bind-to accepted");
+			C39_WITNESS("C39 option: bind-to accepted");
 		} else
 			VP_ASSERT((int)base->global_outgoing_addrlen == bound_before, "C39: rejected bind-to changed the outgoing address");
 	} else
 		VP_ASSERT((int)base->global_outgoing_addrlen == bound_before, "C39: outgoing address changed by another option");
-	if (k != DCR_NOPTS && wr == 0 && !c39_conf_equal(&got, &before)) VP_WITNESS("C39 option: accepted and applied");
-	if (k != DCR_NOPTS && wr == -1) VP_WITNESS("C39 option: malformed value rejected");
-	if (k != DCR_NOPTS && wr == 0 && k != DCR_BINDTO && !(flags & dcr_opts[k].group)) VP_WITNESS("C39 option: group not selected, ignored");
+	if (k != DCR_NOPTS && wr == 0 && !c39_conf_equal(&got, &before)) C39_WITNESS("C39 option: accepted and applied");
+	if (k != DCR_NOPTS && wr == -1) C39_WITNESS("C39 option: malformed value rejected");
+	if (k != DCR_NOPTS && wr == 0 && k != DCR_BINDTO && !(flags & dcr_opts[k].group)) C39_WITNESS("C39 option: group not selected, ignored");
 #if C39_OPTK < 0
-	if (k == DCR_NOPTS) VP_WITNESS("C39 option: unknown option ignored");
+	if (k == DCR_NOPTS) C39_WITNESS("C39 option: unknown option ignored");
 #else
-	if (k == DCR_NOPTS) VP_WITNESS("C39 option: near-miss of the name is not the option");
+	if (k == DCR_NOPTS) C39_WITNESS("C39 option: near-miss of the name is not the option");
 #endif
+	C39_KF_WITNESS();
 	evdns_base_free(base, 0);
 #if C39_OPTK >= 0
 	free(option);
 #else
-	free(option - (C39_ON - olen));
+	C39_FREE(option, C39_ON, olen);
 #endif
-	free(val - (C39_VN - vlen));
+	C39_FREE(val, C39_VN, vlen);
 }
 
 /* ------------------------------------------------------------------ (4) */
@@ -424,7 +445,7 @@ void harness_resolv(void)
 			else VP_ASSERT(c39_text_equal(c39_opt_val[i - 1], copy, t.start[i] + colon + 1, t.len[i] - colon - 1), "C39: options line: value differs from the reference");
 			VP_ASSERT(c39_opt_flags[i - 1] == flags, "C39: options line: flags not passed on");
 		}
-		if (t.n >= 3) VP_WITNESS("C39 resolv: options line with two options");
+		if (t.n >= 3) C39_WITNESS("C39 resolv: options line with two options");
 	} else
 		VP_ASSERT(c39_opt_calls == 0, "C39: option routine called for a line that is not an options line");
 
@@ -444,11 +465,11 @@ void harness_resolv(void)
 				VP_ASSERT(ns != NULL && ns != pre_ns, "C39: nameserver line: new nameserver not in the ring");
 				VP_ASSERT(c39_sa_equal((struct sockaddr *)&ns->address, exa, 1) && ns->addrlen == (ev_socklen_t)c39_psp_len[0], "C39: nameserver line: recorded address differs (port 0 means 53)");
 				VP_ASSERT(ns->state == 1 && ns->next->prev == ns && ns->prev->next == ns, "C39: nameserver line: ring links broken");
-				VP_WITNESS("C39 resolv: nameserver added");
-			} else VP_WITNESS("C39 resolv: duplicate nameserver ignored");
+				C39_WITNESS("C39 resolv: nameserver added");
+			} else C39_WITNESS("C39 resolv: duplicate nameserver ignored");
 		} else {
 			VP_ASSERT(c39_count_ns(base) == ns_before, "C39: malformed nameserver line changed the nameserver list");
-			VP_WITNESS("C39 resolv: malformed nameserver address skipped");
+			C39_WITNESS("C39 resolv: malformed nameserver address skipped");
 		}
 	} else {
 		VP_ASSERT(c39_psp_calls == 0, "C39: address parser called for a line that is not a nameserver line");
@@ -474,17 +495,18 @@ void harness_resolv(void)
 		}
 		VP_ASSERT(d == NULL, "C39: search line: list longer than the reference");
 		VP_ASSERT(base->global_search_state->ndots == (have_state_before ? ndots_before : 1), "C39: a domain/search line changed ndots");
-		if (n >= 2) VP_WITNESS("C39 resolv: search line with two domains");
-		if (kind == DCR_L_DOMAIN) VP_WITNESS("C39 resolv: domain line");
+		if (n >= 2) C39_WITNESS("C39 resolv: search line with two domains");
+		if (kind == DCR_L_DOMAIN) C39_WITNESS("C39 resolv: domain line");
 	} else {
 		VP_ASSERT((base->global_search_state != NULL) == have_state_before, "C39: search state created by a line that is not a search line");
 		if (have_state_before) VP_ASSERT(base->global_search_state->ndots == ndots_before && base->global_search_state->num_domains == ndom_before, "C39: search list changed by a line that is not a search line");
 	}
 	cb.have_search_state = ca.have_search_state; cb.ndots = ca.ndots;   /* (checked above) */
 	VP_ASSERT(c39_conf_equal(&ca, &cb), "C39: resolv.conf line changed an option field directly");
-	if (kind == DCR_L_NONE && t.n > 0) VP_WITNESS("C39 resolv: unknown or unselected directive ignored");
+	if (kind == DCR_L_NONE && t.n > 0) C39_WITNESS("C39 resolv: unknown or unselected directive ignored");
+	C39_KF_WITNESS();
 	evdns_base_free(base, 0);
-	free(line - (C39_N - len));
+	C39_FREE(line, C39_N, len);
 }
 
 /* ------------------------------------------------------------------ (5) */
@@ -539,12 +561,12 @@ void harness_hosts(void)
 		}
 		i++;
 	}
-	if (want_n >= 2) VP_WITNESS("C39 hosts: address with two names");
-	if (want_n >= 1 && cut >= 0) VP_WITNESS("C39 hosts: names before a comment");
-	if (want_r == -1) VP_WITNESS("C39 hosts: bad address, line skipped");
-	if (t.n == 0 && len > 0) VP_WITNESS("C39 hosts: comment or blank line");
+	if (want_n >= 2) C39_WITNESS("C39 hosts: address with two names");
+	if (want_n >= 1 && cut >= 0) C39_WITNESS("C39 hosts: names before a comment");
+	if (want_r == -1) C39_WITNESS("C39 hosts: bad address, line skipped");
+	if (t.n == 0 && len > 0) C39_WITNESS("C39 hosts: comment or blank line");
 	evdns_base_free(base, 0);
-	free(line - (C39_N - len));
+	C39_FREE(line, C39_N, len);
 }
 
 /* ------------------------------------------------------------------ (6) */
@@ -602,8 +624,9 @@ void harness_file(void)
 	VP_ASSERT(c39_line_flags_ok, "C39: flags not passed to the line parser");
 	if (hosts) VP_ASSERT(r == 0, "C39: evdns_base_load_hosts result for a readable file");
 	VP_ASSERT(base->global_search_state != NULL && base->global_search_state->ndots == ndots, "C39: parsing a file without search/domain lines changed ndots");
-	if (nl >= 2) VP_WITNESS("C39 file: three lines");
-	if (nl == 0) VP_WITNESS("C39 file: no newline");
+	if (nl >= 2) C39_WITNESS("C39 file: three lines");
+	if (nl == 0) C39_WITNESS("C39 file: no newline");
+	C39_KF_WITNESS();
 	evdns_base_free(base, 0);
 }
 #endif
